@@ -1104,6 +1104,11 @@ def task_molecules(ctx, n):
 
 
 def tasks(tier):
+    from .. import depth
+    return _tasks(tier) + [("little-stack", depth.task, dict(prop=PROPERTY))]
+
+
+def _tasks(tier):
     if tier == "quick":
         return [("tables", task_tables, {}),
                 ("long", task_long, dict(n=60)),
@@ -1127,6 +1132,9 @@ def tasks(tier):
 
 
 def replay(ctx, case):
+    if isinstance(case, dict) and case.get("kind") == "little-stack":
+        from .. import depth
+        return depth.check(ctx, case)
     k = case["kind"]
     if k == "compound":
         check_compound(ctx, case)
